@@ -295,7 +295,7 @@ def run(ctx):
     ctx.nontrivial += sum(1 for c in icases if len(c['blocks']) >= 2)
     ctx.sample({'kind': 'GEN IterPSF state', **{k: icases[len(icases) // 2][k] for k in ('depth', 'twin', 'mode', 'maxiters', 'blocks', 'groups')}})
     n = 320 if q else 5000
-    recs = core.pmap(rec_scene, [ctx.seed * 9301 + i for i in range(n)], chunksize=2)
+    recs = core.pmap(rec_scene, [ctx.seed * 9301 + i for i in range(n)], chunksize=2, on_raise='drop')
     for r in recs:      # rename for the trace spec (id = case id, idx = id column)
         r['id_col'] = r.pop('idx'); r.pop('id_list', None)
     ver = core.validate_batch(ctx, 'Trace_PSFBook', [dict(r, **{'id': r['id']}) for r in recs], 'Trace:PSFBook')
